@@ -42,6 +42,7 @@ func main() {
 		genEnum(w, env, r, a.Tier)
 		genRandom(w, env, r, a.Tier)
 		genInit(w, env, r, a.Tier)
+		goSide(w, env)
 	}
 	env.cleanup()
 	if err := w.Close(); err != nil {
